@@ -237,7 +237,8 @@ fn word_cells(s: &str, with_fold: bool, table: &mut SetTable) -> Vec<Value> {
         .collect()
 }
 
-/// Tokens of an escaped output: [0, cp] raw code point, [1, value] a \u{value} escape.
+/// Tokens of an escaped output: [0, cp] raw code point, [1, value] a \u{value} escape, [2, value] marker in
+/// front of the raw text of an escape in another notation.
 pub fn esc_tokens(s: &str) -> Vec<(u8, u32)> {
     let cs: Vec<char> = s.chars().collect();
     let mut out = vec![];
@@ -264,6 +265,33 @@ pub fn esc_tokens(s: &str) -> Vec<(u8, u32)> {
                 }
             }
         }
+        if cs[i] == '\\' && i + 1 < cs.len() && matches!(cs[i + 1], 'u' | 'x' | 'U') {
+            // an escape of a code point in any OTHER notation the regex syntax knows (\uXXXX, \xHH, \UXXXXXXXX,
+            // \x{..}, a \u{..} with upper-case digits or leading zeros): a marker token [2, value] in front of
+            // its raw text, so that the specification can tell it from literal text
+            let hex = |from: usize, n: usize| -> Option<u64> {
+                if from + n > cs.len() || !cs[from..from + n].iter().all(|c| c.is_ascii_hexdigit()) {
+                    return None;
+                }
+                Some(cs[from..from + n].iter().fold(0u64, |a, c| a * 16 + c.to_digit(16).unwrap() as u64))
+            };
+            let val = if i + 2 < cs.len() && cs[i + 2] == '{' && cs[i + 1] != 'U' {
+                let mut j = i + 3;
+                while j < cs.len() && cs[j].is_ascii_hexdigit() && j - i < 12 {
+                    j += 1;
+                }
+                if j < cs.len() && cs[j] == '}' && j > i + 3 { hex(i + 3, j - i - 3) } else { None }
+            } else {
+                match cs[i + 1] {
+                    'u' => hex(i + 2, 4),
+                    'x' => hex(i + 2, 2),
+                    _ => hex(i + 2, 8),
+                }
+            };
+            if let Some(v) = val {
+                out.push((2, v.min(0x7fff_ffff) as u32));
+            }
+        }
         if cs[i] == '\\' && i + 1 < cs.len() && cs[i + 1] == '\\' {
             // an escaped backslash: keep both, never start an escape at the second one
             out.push((0, '\\' as u32));
@@ -284,7 +312,10 @@ pub fn decode_escapes(toks: &[(u8, u32)]) -> Option<String> {
     let mut i = 0;
     while i < toks.len() {
         let (k, v) = toks[i];
-        if k == 0 {
+        if k == 2 {
+            // marker of a foreign escape: its raw text follows
+            i += 1;
+        } else if k == 0 {
             s.push(char::from_u32(v)?);
             i += 1;
         } else if (0xD800..0xDC00).contains(&v) {
